@@ -84,6 +84,7 @@ type Run struct {
 	trans      atomic.Int64
 	traces     atomic.Int64
 	capped     atomic.Bool
+	running    atomic.Bool // inside Check.Run (not while replaying)
 
 	mu       sync.Mutex
 	fails    map[string]*Fail
@@ -302,6 +303,50 @@ func (r *Run) Report(f *Fail) {
 		r.fails[f.Sig] = f
 	}
 	r.mu.Unlock()
+	if Hung.Load() && r.running.Load() {
+		panic(stopRun{})
+	}
+}
+
+var anyRunning atomic.Bool
+
+// StopIfHung ends the exploration of this process (like the Report that
+// follows a hang does) when an earlier call was abandoned by Within. Seams call
+// it before executing anything further. No effect while replaying.
+func StopIfHung() {
+	if Hung.Load() && anyRunning.Load() {
+		panic(stopRun{})
+	}
+}
+
+// HangMark starts the Stack of a result that stands for a call which did not
+// return within its limit.
+const HangMark = "HANG: "
+
+// Hung is set by Within when the code under test did not return in time. The
+// goroutine running it cannot be stopped, so nothing more is explored in this
+// process: the next Report ends the run (marked as not exhaustive).
+var Hung atomic.Bool
+
+type stopRun struct{}
+
+// Within runs f on its own goroutine and waits at most d for it. It returns
+// false, and sets Hung, when f did not return; f keeps running abandoned.
+func Within(d time.Duration, f func()) bool {
+	done := make(chan struct{})
+	go func() {
+		defer close(done)
+		f()
+	}()
+	t := time.NewTimer(d)
+	defer t.Stop()
+	select {
+	case <-done:
+		return true
+	case <-t.C:
+		Hung.Store(true)
+		return false
+	}
 }
 
 // NFails returns the number of distinct failure signatures so far.
@@ -326,6 +371,9 @@ func Catch(f func()) (p any, stack string) {
 // PanicSite extracts the first repository frame (file:function) of a stack
 // for use in signatures.
 func PanicSite(stack string) string {
+	if strings.HasPrefix(stack, HangMark) {
+		return "HANG"
+	}
 	lines := strings.Split(stack, "\n")
 	for i := 0; i+1 < len(lines); i++ {
 		l := lines[i]
@@ -347,6 +395,10 @@ func PanicSite(stack string) string {
 func (r *Run) guard(f func()) {
 	p, stack := Catch(f)
 	if p == nil {
+		return
+	}
+	if _, ok := p.(stopRun); ok {
+		r.Cap("exploration stopped: a call into the code under test did not return (the abandoned goroutine still runs in this process)")
 		return
 	}
 	site := PanicSite(stack)
@@ -378,7 +430,7 @@ func (r *Run) Par(n int, f func(i int)) {
 				if i >= n {
 					return
 				}
-				if r.Expired() {
+				if r.Expired() || Hung.Load() {
 					return
 				}
 				r.guard(func() { f(i) })
@@ -452,6 +504,7 @@ func (r *Run) finish() int {
 			}
 			ok := true
 			for i := 0; i < 2; i++ {
+				Hung.Store(false) // each replay builds its own instance; an abandoned call of an earlier one is left alone
 				g := r.check.Replay(r, raw)
 				if g == nil || g.Sig != f.Sig {
 					ok = false
@@ -580,6 +633,7 @@ func Main(checks map[string]Check) {
 			fmt.Fprintln(os.Stderr, "check has no replay function")
 			os.Exit(3)
 		}
+		Hung.Store(false)
 		f := c.Replay(r, v.Case)
 		if f == nil {
 			fmt.Printf("replay: property %s holds on this case\n", *id)
@@ -596,6 +650,14 @@ func Main(checks map[string]Check) {
 			r.limit = 3 * time.Hour
 		}
 	}
+	// Last resort against code under test that never returns where no seam
+	// has its own hang limit: the process ends instead of blocking its caller
+	// for ever. Not a verdict on the property (exit status 3, no VIOLATION line).
+	go func(limit time.Duration) {
+		time.Sleep(2*limit + 5*time.Minute)
+		fmt.Fprintf(os.Stderr, "HARNESS-TIMEOUT: %s %s did not finish within %v (twice its budget + 5 min); a call into the code under test probably never returns\n", r.ID, r.Tier, 2*limit+5*time.Minute)
+		os.Exit(3)
+	}(r.limit)
 	if *shard != "" {
 		fmt.Sscanf(*shard, "%d/%d", &r.shardIdx, &r.shardN)
 		if pf := os.Getenv("VERIF_CPUPROFILE"); pf != "" && r.shardIdx == 0 {
@@ -604,7 +666,13 @@ func Main(checks map[string]Check) {
 				defer pprof.StopCPUProfile()
 			}
 		}
-		r.guard(func() { c.Run(r) })
+		r.guard(func() {
+			r.running.Store(true)
+			anyRunning.Store(true)
+			defer r.running.Store(false)
+			defer anyRunning.Store(false)
+			c.Run(r)
+		})
 		pprof.StopCPUProfile()
 		r.writePartial(*outFile)
 		os.Exit(0)
@@ -617,7 +685,13 @@ func Main(checks map[string]Check) {
 				pprof.StartCPUProfile(f)
 			}
 		}
-		r.guard(func() { c.Run(r) })
+		r.guard(func() {
+			r.running.Store(true)
+			anyRunning.Store(true)
+			defer r.running.Store(false)
+			defer anyRunning.Store(false)
+			c.Run(r)
+		})
 		pprof.StopCPUProfile()
 	}
 	os.Exit(r.finish())
